@@ -50,6 +50,10 @@ type handler1 struct {
 	keepAlive        uint16
 	clientID         string
 	topicID          *util.IDSequence
+	// All TopicIDs have been used - no new TopicID may be assigned.
+	// Guarded by topicIDMutex (newTopicID is called from both receive loops).
+	topicIDsExhausted bool
+	topicIDMutex      sync.Mutex
 	pktBuffer        []snPkts.Packet
 	group            *errgroup.Group
 	transactions     *transactions.TransactionStore
@@ -482,8 +486,18 @@ func (h *handler1) mqttReceiveLoop(ctx context.Context) error {
 }
 
 func (h *handler1) newTopicID() (uint16, error) {
+	// The ID sequence signals the overflow only once and then starts
+	// from the beginning => we must remember it otherwise already
+	// assigned TopicIDs would be assigned again.
+	h.topicIDMutex.Lock()
+	defer h.topicIDMutex.Unlock()
+
+	if h.topicIDsExhausted {
+		return 0, ErrTopicIDsExhausted
+	}
 	topicID, overflow := h.topicID.Next()
 	if overflow {
+		h.topicIDsExhausted = true
 		return 0, ErrTopicIDsExhausted
 	}
 	for {
@@ -491,6 +505,7 @@ func (h *handler1) newTopicID() (uint16, error) {
 			break
 		}
 		if topicID, overflow = h.topicID.Next(); overflow {
+			h.topicIDsExhausted = true
 			return 0, ErrTopicIDsExhausted
 		}
 	}
